@@ -74,6 +74,16 @@ for it in items:
     obj = mod
     parts = it['qualname'].split('$')[0].split('.')     # 'f$k' = k-th conditional module-level definition of f
     try:
+        if len(parts) == 3:
+            # closure 'Class.method.nested': its text must occur (line by line) in the source of the running method
+            cls = getattr(mod, parts[0])
+            obj = inspect.getattr_static(cls, parts[1])
+            src = [l.strip() for l in inspect.getsource(inspect.unwrap(obj)).splitlines()]
+            seg = [l.strip() for l in it['segment'].splitlines()]
+            k = len(seg)
+            if not any(src[i:i + k] == seg for i in range(len(src) - k + 1)):
+                bad.append([it['module'], it['qualname'], 'closure text not found in the running method'])
+            continue
         if len(parts) == 2:
             cls = getattr(mod, parts[0])
             obj = inspect.getattr_static(cls, parts[1])
@@ -294,9 +304,9 @@ def run_property(prop, tier='quick', update_baseline=False, only=None, verbose=F
         missing = sorted(bnames - now)
         changed_funcs = {r.spec.name for r in results
                          if bprop.get('functions', {}).get(r.spec.name) not in (None, func_hash(r))}
-        missing_unchanged = [n for n in missing if not any(n.startswith(f + '#') for f in changed_funcs)]
+        missing_unchanged = [n for n in missing if not any(n.startswith((f + '#', f + '[')) for f in changed_funcs)]
         sup_names = {r.spec.name for r in results if r.unsupported}
-        missing_unchanged = [n for n in missing_unchanged if not any(n.startswith(f + '#') for f in sup_names)]
+        missing_unchanged = [n for n in missing_unchanged if not any(n.startswith((f + '#', f + '[')) for f in sup_names)]
         if missing_unchanged:
             errors.append(f'{len(missing_unchanged)} baseline obligations are no longer generated although the '
                           f'source is unchanged, e.g. {missing_unchanged[:3]}')
@@ -417,11 +427,18 @@ def run_property(prop, tier='quick', update_baseline=False, only=None, verbose=F
         print(v)
 
     if update_baseline and not SCRATCH and not errors and not violations and not unsupported and not undecided:
-        baseline[prop] = {'obligations': {o.name: o.verdict for o in all_obs},
-                          'functions': {r.spec.name: func_hash(r) for r in results}}
+        # read-modify-write under a lock, atomic replace: concurrent runs for other properties must not lose entries
+        import fcntl
         os.makedirs(os.path.dirname(BASELINE), exist_ok=True)
-        with open(BASELINE, 'w') as f:
-            json.dump(baseline, f, indent=1, sort_keys=True)
+        with open(BASELINE + '.lock', 'w') as lk:
+            fcntl.flock(lk, fcntl.LOCK_EX)
+            baseline = load_json(BASELINE, {})
+            baseline[prop] = {'obligations': {o.name: o.verdict for o in all_obs},
+                              'functions': {r.spec.name: func_hash(r) for r in results}}
+            tmp = BASELINE + f'.tmp{os.getpid()}'
+            with open(tmp, 'w') as f:
+                json.dump(baseline, f, indent=1, sort_keys=True)
+            os.replace(tmp, BASELINE)
         print(f'baseline updated for {prop}: {len(all_obs)} obligations')
     if violations:
         return EXIT_VIOLATION
